@@ -77,4 +77,5 @@ static dt_ywd_t __ywd_add_d(dt_ywd_t d, int n)
 CONTRACT(PRE___ywd_add_d(d, n), POST___ywd_add_d(RV, d, n));
 
 
+
 #endif
